@@ -4,7 +4,8 @@ import re
 from acverif.mir import short, tstr, subterms, affine_str
 from acverif.rl import (is_call, peel, peel_all, is_var, is_agg, is_const, self_field, bool_gates, discr_gates, reachable_without,
                         must_pass, line_of, rewrite, expand_vars, atom, cmp_norm, cmp_true_when, eq_cond, var_defs_terms,
-                        is_named_const, strip_convs)
+                        is_named_const, strip_convs, param_at, Unsupported, EvalPanic)
+from acverif.sym import (Sym, summarize, canon, cstr, TooManyPaths, teval, row_holds, row_consistent, by_cstr, loop_rows, innermost_loop)
 
 ST = "nfa::contiguous::State::<'a>::"
 
@@ -19,140 +20,192 @@ def r04_4(cx):
     ok = None not in (mx, one, dense) and mx < one < dense <= 0xFF
     cx.report('R04.4', ST + 'KIND', 'sentinels', ok, 'MAX_SPARSE_TRANSITIONS (%s) < KIND_ONE (%s) < KIND_DENSE (%s) <= 0xFF: a sparse transition count can never be mistaken for a kind sentinel' % (mx, one, dense) if ok else
               'kind sentinels collide with sparse transition counts: MAX_SPARSE_TRANSITIONS=%s KIND_ONE=%s KIND_DENSE=%s' % (mx, one, dense))
-    w = cx.body(ST + 'write')
-    kl = w.locals_named('kind')
-    defs = var_defs_terms(w, kl[0]) if kl else []
-    # kind decision
-    dg = bool_gates(w, lambda x: is_var(x, 'force_dense'))
+    write_table(cx)
 
-    def fn(y):
-        if is_var(y, 'old_len'):
-            return atom('N')
-        if y[0] == 'k' and y[1].endswith('MAX_SPARSE_TRANSITIONS'):
-            return atom('MAXS')
-        return None
-    mg = []
-    for blk, sc in w.switches():
-        if sc[0] != 'bool':
-            continue
-        cn = cmp_norm(rewrite(sc[1], fn))
-        if cn == cmp_norm(('op', 'Gt', atom('N'), atom('MAXS'))):
-            mg.append((blk, [(blk, t) for t in sc[2]], [(blk, t) for t in sc[3]]))
-    dense_def = [bi for bi, si, t in defs if t[0] == 'k' and t[1].endswith('KIND_DENSE')]
-    one_def = [bi for bi, si, t in defs if t[0] == 'k' and t[1].endswith('KIND_ONE')]
-    len_def = [bi for bi, si, t in defs if 'old_len' in tstr(expand_vars(w, t, keep=('old_len',)))]
-    ok1 = len(dense_def) == 1 and len(one_def) == 1 and len(len_def) == 1 and bool(dg) and bool(mg)
-    if ok1:
-        # counts above MAX_SPARSE_TRANSITIONS can only become dense
-        ok1 = all(not ({one_def[0], len_def[0]} & w.reach(tg, cut_blocks=[dense_def[0]])) for g in mg for _, tg in g[1])
-        ok1 = ok1 and all(not ({one_def[0], len_def[0]} & w.reach(tg, cut_blocks=[dense_def[0]])) for g in dg for _, tg in g[2])
-    # KIND_ONE only for exactly one transition and a non-match state
-    g1 = bool_gates(w, lambda x: x[0] == 'op' and x[1] == 'Eq' and is_var(x[2], 'old_len') and x[3] == ('c', 1))
-    gm = bool_gates(w, lambda x: is_call(x, r'noncontiguous::State::is_match$') and is_var(peel(x[2][0]), 'old'))
-    ok2 = bool(one_def) and bool(g1) and bool(gm) and not reachable_without(w, one_def, [e for g in g1 for e in g[2]]) and not reachable_without(w, one_def, [e for g in gm for e in g[3]])
-    cx.report('R04.4', w, 'kind-decision', ok1 and ok2, 'kind = DENSE if force_dense or more than MAX_SPARSE_TRANSITIONS; ONE only for exactly one transition of a non-match state; else the transition count' if ok1 and ok2 else
-              'State::write kind decision deviates (dense rule=%s, one rule=%s)' % (ok1, ok2))
-    okol = False
-    ol = w.locals_named('old_len')
-    if ol:
-        d = w.def_term(ol[0])
-        okol = d is not None and is_call(d, r'Iterator::count$') and is_call(d[2][0], r'NFA::iter_trans$') and is_var(d[2][0][2][1], 'oldsid')
-    cx.report('R04.4', w, 'old_len', okol, 'old_len = number of transitions of the state being written' if okol else 'old_len is not iter_trans(oldsid).count()')
+
+def write_table(cx):
+    """State::write as a decision table: for every combination of force_dense, transition count and match status the words
+    pushed first are [kind-word][fail], followed by the transition block of that kind."""
+    w = cx.body(ST + 'write')
+    dense, one, mx = const(cx, 'KIND_DENSE'), const(cx, 'KIND_ONE'), const(cx, 'MAX_SPARSE_TRANSITIONS')
+    try:
+        rows = [r for r in summarize(cx.facts, w) if r.end == 'return' and is_agg(r.ret, r'Result$', 'Ok')]
+    except TooManyPaths:
+        rows = []
+    NNFA, OLDSID, OLD, CLASSES, DST, FD = (cstr(param_at(w, i)) for i in (1, 2, 3, 4, 5, 6))
+    CNT = 'core::iter::Iterator::count(nfa::noncontiguous::NFA::iter_trans(%s, %s))' % (NNFA, OLDSID)
+    FIRST = '(core::iter::Iterator::next(nfa::noncontiguous::NFA::iter_trans(%s, %s)) as Some).0' % (NNFA, OLDSID)
+    why_kind = why_layout = None
+    n = 0
+    if not rows:
+        why_kind = why_layout = 'no successful path through State::write could be tabulated'
+    C, FAILW, NEXTW = 5, 77, 88
+    for fd in (0, 1):
+        for cnt in (0, 1, 2, 5, mx or 127, (mx or 127) + 1, 200, 300):
+            for im in (0, 1):
+                if why_kind or why_layout:
+                    break
+                at = by_cstr({FD: fd, CNT: cnt, 'nfa::noncontiguous::State::is_match(%s)' % OLD: im, '%s.fail.0.0' % OLD: FAILW,
+                              'util::alphabet::ByteClasses::get(%s, %s.byte)' % (CLASSES, FIRST): C, '%s.next.0.0' % FIRST: NEXTW,
+                              'discr(core::iter::Iterator::next(nfa::noncontiguous::NFA::iter_trans(%s, %s)))' % (NNFA, OLDSID): 1 if cnt else 0})
+                sel = [r for r in rows if row_consistent(r, at)]
+                n += 1
+                if not sel:
+                    why_kind = 'no path for force_dense=%d, %d transitions, match=%d' % (fd, cnt, im)
+                    break
+                exp = 'dense' if (fd or cnt > mx) else ('one' if cnt == 1 and not im else 'sparse')
+                for r in sel:
+                    lay = []
+                    for e in r.effects:
+                        if e[0] != 'call':
+                            continue
+                        ce = canon(e[1])
+                        if is_call(ce, r'Vec.*::push$') and cstr(ce[2][0]) == DST:
+                            lay.append(('push', ce[2][1]))
+                        elif is_call(ce, r'State::write_(dense|sparse)_trans$'):
+                            lay.append((short(ce[1]).rsplit('::', 1)[1], [cstr(a) for a in ce[2]]))
+                        elif is_call(ce, r'Extend::extend$|extend_from_slice$') and cstr(ce[2][0]) == DST:
+                            lay.append(('extend', None))
+                    try:
+                        w0 = teval(lay[0][1], at) if lay and lay[0][0] == 'push' else None
+                        w1 = teval(lay[1][1], at) if len(lay) > 1 and lay[1][0] == 'push' else None
+                        w2 = teval(lay[2][1], at) if exp == 'one' and len(lay) > 2 and lay[2][0] == 'push' else None
+                    except (Unsupported, EvalPanic) as e:
+                        why_layout = 'cannot evaluate the words written: %s' % e
+                        break
+                    want0 = dense if exp == 'dense' else ((one | (C << 8)) if exp == 'one' else cnt)
+                    if w0 != want0:
+                        why_kind = 'for force_dense=%d, %d transitions, match=%d the first word is %s, expected %s (%s)' % (fd, cnt, im, w0, want0, exp)
+                        break
+                    if w1 != FAILW:
+                        why_layout = 'the second word of a %s state is not the failure transition' % exp
+                        break
+                    args = [NNFA, OLDSID, CLASSES, DST]
+                    if exp == 'dense' and not (len(lay) > 2 and lay[2] == ('write_dense_trans', args)):
+                        why_layout = 'a dense state header is not followed by write_dense_trans(nnfa, oldsid, classes, dst)'
+                    elif exp == 'sparse' and not (len(lay) > 2 and lay[2] == ('write_sparse_trans', args)):
+                        why_layout = 'a sparse state header is not followed by write_sparse_trans(nnfa, oldsid, classes, dst)'
+                    elif exp == 'one' and w2 != NEXTW:
+                        why_layout = 'a one-transition state does not store its single target as the third word'
+                    elif exp == 'one' and any(x[0].startswith('write_') for x in lay):
+                        why_layout = 'a one-transition state also writes a transition block'
+                    if why_layout:
+                        break
+    cx.report('R04.4', w, 'kind-decision', why_kind is None, 'kind = DENSE if force_dense or more than MAX_SPARSE_TRANSITIONS; ONE only for exactly one transition of a non-match state; else the transition count (%d input classes tabulated)' % n if why_kind is None else 'State::write: ' + why_kind)
+    cx.report('R04.5', w, 'header-layout', why_layout is None, 'every state starts with [kind | class<<8 for ONE][fail]; ONE continues with its single target; dense/sparse continue with their transition block' if why_layout is None else 'State::write: ' + why_layout)
 
 
 def r04_5_writer(cx):
-    w = cx.body(ST + 'write')
-    pushes = [(bi, w.call_term(bi, t)) for bi, t in w.calls(r'Vec.*::push$') if is_var(peel(w.call_term(bi, t)[2][0]), 'dst')]
-    kd = discr_gates(w, lambda x: False)
-    # branches by kind tests
-    gd = bool_gates(w, lambda x: x[0] == 'op' and x[1] == 'Eq' and is_var(x[2], 'kind') and x[3][0] == 'k' and x[3][1].endswith('KIND_DENSE'))
-    go = bool_gates(w, lambda x: x[0] == 'op' and x[1] == 'Eq' and is_var(x[2], 'kind') and x[3][0] == 'k' and x[3][1].endswith('KIND_ONE'))
-    ok = bool(gd) and bool(go)
-    rows = {}
-    if ok:
-        regions = {'dense': [tg for g in gd for _, tg in g[2]], 'one': [tg for g in go for _, tg in g[2]], 'sparse': [tg for g in go for _, tg in g[3]]}
-        stop = [bi for bi, t in w.calls(r'noncontiguous::State::is_match$') if any(bi in w.reach(tg) for tgs in regions.values() for tg in tgs) and w.dominates(gd[0][0], bi) and not any(bi in w.reach(0, cut_blocks=[gd[0][0]]) for _ in [0])]
-        for nm, tgs in regions.items():
-            seq = []
-            r = set()
-            for tg in tgs:
-                r |= w.reach(tg, cut_blocks=stop)
-            for bi, ct in sorted(pushes):
-                if bi in r and bi not in stop:
-                    seq.append((bi, tstr(strip_convs(expand_vars(w, ct[2][1], keep=('kind', 'old', 'class', 't'))), 120)))
-            calls = [short(t['callee']['path']).rsplit('::', 1)[1] for bi, t in w.calls(r'State::write_(dense|sparse)_trans$') if bi in r]
-            rows[nm] = (seq, calls)
-        def fail_word(s):
-            return 'State::fail(old)' in s
-        d, o, s = rows['dense'], rows['one'], rows['sparse']
-        okd = len(d[0]) >= 2 and d[0][0][1] == 'kind' and fail_word(d[0][1][1]) and 'write_dense_trans' in d[1] and w.dominates(d[0][0][0], d[0][1][0])
-        oko = len(o[0]) >= 3 and 'BitOr(kind, Shl(class, 8))' in o[0][0][1] and fail_word(o[0][1][1]) and 'Transition::next(t)' in o[0][2][1]
-        oks = len(s[0]) >= 2 and s[0][0][1] == 'kind' and fail_word(s[0][1][1]) and 'write_sparse_trans' in s[1]
-        ok = okd and oko and oks
-    cx.report('R04.5', w, 'header-layout', ok, 'every state starts with [kind | class<<8 for ONE][fail]; ONE continues with its single target; dense/sparse continue with their transition block' if ok else
-              'State::write header layout deviates: %s' % {k: [x[1] for x in v[0]] for k, v in rows.items()})
     sp = cx.body(ST + 'write_sparse_trans')
     # classes chunked by 4, last chunk padded with its last real class; then one word per target in the same order
-    st = [(bi, tstr(tt), v) for bi, si, tt, v, s in sp.field_stores()]
-    pad = [(bi, v) for bi, ts, v in st if ts.startswith('chunk[') and is_var(v, 'repeat')]
-    real = [(bi, v) for bi, ts, v in st if ts.startswith('chunk[') and is_call(v, r'ByteClasses::get$')]
-    other = [(bi, ts, tstr(v, 60)) for bi, ts, v in st if ts.startswith('chunk[') and not is_var(v, 'repeat') and not is_call(v, r'ByteClasses::get$')]
-    rl = sp.locals_named('repeat')
-    okrep = False
-    if rl:
-        d = sp.def_term(rl[0])
-        okrep = d is not None and d[0] == 'idx' and is_var(d[1], 'chunk') and affine_str(d[2]).replace(' ', '') in ('+len-1',)
-    tg = [sp.call_term(bi, t) for bi, t in sp.calls(r'Vec.*::push$')]
-    oktargets = any('Transition::next(t)' in tstr(x, 200) for x in tg) and sum(1 for x in tg if 'from_ne_bytes(chunk)' in tstr(x, 200)) == 2
-    ok = len(pad) == 1 and len(real) == 1 and not other and okrep and oktargets
+    chunks = [i for i, l in enumerate(sp.locals) if l['ty'] == '[u8; 4]' and (l['names'] or len(sp.defs().get(i, [])) > 1)]
+    byte_refs = {i for i, l in enumerate(sp.locals) if l['ty'] in ('&mut u8', '*mut u8')}
+    real, pad, other = [], [], []
+    for bi, si, pl, st in sp.stores():
+        if si == 'term':
+            continue
+        prs = pl['pr']
+        into_chunk = pl['l'] in chunks and any(isinstance(x, dict) and ('idx' in x or 'cidx' in x) for x in prs)
+        via_ref = pl['l'] in byte_refs and '*' in prs
+        if not (into_chunk or via_ref):
+            continue
+        v = expand_vars(sp, sp.rvalue_term(st['r'], 0, bi))
+        v = strip_convs(v)
+        if is_call(v, r'ByteClasses::get$'):
+            real.append(bi)
+        elif v[0] == 'idx' and v[1][0] == 'v' and v[1][2] in chunks and re.match(r'^\+\w+ -1$', affine_str(v[2]).strip()):
+            pad.append(bi)
+        else:
+            other.append(tstr(v, 60))
+    pushes = [expand_vars(sp, sp.call_term(bi, t0)) for bi, t0 in sp.calls(r'Vec.*::push$')]
+    words = [x for x in pushes if is_call(strip_convs(x[2][1]), r'from_ne_bytes$') and peel_all(strip_convs(x[2][1])[2][0])[0] == 'v' and peel_all(strip_convs(x[2][1])[2][0])[2] in chunks]
+    tg = [x for x in pushes if x not in words]
+    oktargets = len(words) == 2 and len(tg) == 1 and re.search(r'Transition::next\(|\.next', tstr(tg[0][2][1], 300)) is not None and 'iter_trans' in tstr(tg[0][2][1], 300)
+    ok = len(chunks) == 1 and len(pad) >= 1 and len(real) == 1 and not other and oktargets
     cx.report('R04.5', sp, 'sparse-layout', ok, 'sparse block = ceil(n/4) class words (last one padded by repeating the last real class) followed by n target words in the same order' if ok else
-              'write_sparse_trans deviates: padding uses %s (must repeat the last real class: unused slots are compared by the reader)' % ([tstr(v, 40) for _, v in pad] + [o[2] for o in other]))
+              'write_sparse_trans deviates: class-chunk bytes are written from %s (allowed: the class of a transition, or chunk[len-1] as padding: unused slots are compared by the reader); words pushed: %d chunk words, %d others' % (other, len(words), len(tg)))
 
 
 def r04_5_reader(cx):
     b = cx.body('<nfa::contiguous::NFA as automaton::Automaton>::next_state')
-    reads = []
-    for bi in sorted(b.live_blocks()):
-        t = b.term(bi)
-        if t['k'] == 'call' and is_call(b.call_term(bi, t), r'Index::index$'):
-            ct = b.call_term(bi, t)
-            if is_var(peel(ct[2][0]), 'repr'):
-                reads.append((bi, strip_convs(expand_vars(b, ct[2][1], keep=('o', 'class', 'i', 'classes_len')))))
+
+    def is_repr(x):
+        x = peel_all(expand_vars(b, x))
+        return self_field(x, 'repr')
 
     def fn(y):
-        if is_var(y, 'o'):
+        if is_call(y, r'StateID::as_usize$') and peel_all(y[2][0])[0] == 'v' and b.locals[peel_all(y[2][0])[2]]['ty'].endswith('StateID'):
             return atom('O')
-        if is_var(y, 'class'):
+        if is_call(y, r'ByteClasses::get$'):
             return atom('CLASS')
-        if is_var(y, 'i'):
-            return atom('I')
-        if is_var(y, 'classes_len'):
+        if is_call(y, r'contiguous::u32_len$'):
             return atom('CL')
+        if y[0] == 'f' and y[2] == '0' and y[1][0] == 'f' and y[1][2] == '0' and y[1][1][0] == 'dc' and y[1][1][2] == 'Some' and is_call(peel_all(y[1][1][1]), r'Iterator::next$'):
+            return atom('I')
         return None
-    forms = sorted({affine_str(rewrite(ix, fn)) for bi, ix in reads if not is_agg(ix, r'Range')})
+
+    def norm(ix):
+        return rewrite(rewrite(strip_convs(expand_vars(b, ix)), fn), fn)
+    reads = []
+    for bi in sorted(b.live_blocks()):
+        t0 = b.term(bi)
+        if t0['k'] == 'call' and is_call(b.call_term(bi, t0), r'Index::index$'):
+            ct = b.call_term(bi, t0)
+            if is_repr(ct[2][0]):
+                reads.append((bi, norm(ct[2][1])))
+    forms = sorted({affine_str(ix) for bi, ix in reads if not is_agg(ix, r'Range')})
     want = sorted({'+O', '+O +1', '+O +2', '+CLASS +O +2', '+CL +4*I +O +2', '+CL +4*I +O +3', '+CL +4*I +O +4', '+CL +4*I +O +5'})
     ok = forms == want
     cx.report('R04.5', b, 'reader-offsets', ok, 'next_state reads kind@o, fail@o+1, dense target@o+2+class, single target@o+2, sparse target k of chunk i@o+2+classes_len+4i+k' if ok else
               'contiguous next_state index expressions deviate: %s (expected %s)' % (forms, want))
     # the lane compared and the lane read agree: classes[k] == class -> +k
     okl = True
+    nl = 0
     for blk, sc in b.switches():
         if sc[0] != 'bool':
             continue
         c = sc[1]
-        if c[0] == 'op' and c[1] == 'Eq' and c[2][0] == 'idx' and is_var(c[2][1], 'classes') and is_var(c[3], 'class'):
-            k = c[2][2][1]
-            for tgt in sc[2]:
-                r = b.reach(tgt, cut_blocks=[h for h in b.loops()])
-                idx = [affine_str(rewrite(ix, fn)) for bi, ix in reads if bi in r]
-                first = [x for x in idx if '4*I' in x]
-                if not first or first[0] != '+CL +4*I +O %+d' % (2 + k):
-                    okl = False
-    cx.report('R04.5', b, 'lane-agreement', okl, 'a hit in class lane k reads target lane k' if okl else 'class lane and target lane disagree in the sparse lookup')
-    cl = b.locals_named('classes_len')
-    d = expand_vars(b, b.def_term(cl[0]), keep=('kind',)) if cl else None
-    okc = d is not None and is_call(d, r'contiguous::u32_len$') and 'kind' in tstr(d)
-    cx.report('R04.5', b, 'classes_len', okc, 'classes_len = u32_len(kind as transition count)' if okc else 'classes_len = %s' % (tstr(d, 80) if d else None))
+        if not (c[0] == 'op' and c[1] == 'Eq'):
+            continue
+        sides = [c[2], c[3]]
+        lane = [s for s in sides if s[0] == 'idx' and s[2][0] == 'c' and is_call(peel_all(expand_vars(b, s[1])), r'to_ne_bytes$')]
+        cls = [s for s in sides if norm(s) == atom('CLASS')]
+        if len(lane) != 1 or len(cls) != 1:
+            continue
+        nl += 1
+        k = lane[0][2][1]
+        for tgt in sc[2]:
+            r = b.reach(tgt, cut_blocks=[h for h in b.loops()])
+            idx = [affine_str(ix) for bi, ix in reads if bi in r]
+            first = [x for x in idx if '4*I' in x]
+            if not first or first[0] != '+CL +4*I +O %+d' % (2 + k):
+                okl = False
+    okl = okl and nl == 4
+    cx.report('R04.5', b, 'lane-agreement', okl, 'a hit in class lane k reads target lane k (4 lanes)' if okl else 'class lane and target lane disagree in the sparse lookup (%d lane tests found)' % nl)
+    KIND = None
+    okk = True
+    nk = 0
+    for blk, sc in b.switches():
+        if sc[0] != 'bool':
+            continue
+        c = sc[1]
+        if c[0] == 'op' and c[1] in ('Eq', 'Ne') and any(s[0] == 'k' and re.search(r'KIND_(DENSE|ONE)$', s[1]) for s in (c[2], c[3])):
+            other = [s for s in (c[2], c[3]) if not (s[0] == 'k' and re.search(r'KIND_(DENSE|ONE)$', s[1]))]
+            nk += 1
+            k0 = rewrite(strip_convs(expand_vars(b, other[0])), fn) if other else None
+            good = k0 is not None and k0[0] == 'op' and k0[1] == 'BitAnd' and k0[3] == ('c', 255) and is_call(k0[2], r'Index::index$') and is_repr(k0[2][2][0]) and k0[2][2][1] == atom('O')
+            okk = okk and good
+            KIND = k0 if good else KIND
+    okk = okk and nk >= 2
+    cx.report('R04.5', b, 'kind-byte', okk, 'kind = low byte of word 0' if okk else 'the kind tested against KIND_DENSE / KIND_ONE is not repr[o] & 0xFF')
+    cls_calls = [strip_convs(expand_vars(b, b.call_term(bi, t0))) for bi, t0 in b.calls(r'contiguous::u32_len$')]
+    okc = len(cls_calls) == 1 and KIND is not None
+    if okc:
+        a = rewrite(cls_calls[0][2][0], fn)
+        while is_call(a, r'as_usize$'):
+            a = a[2][0]
+        okc = a == KIND
+    cx.report('R04.5', b, 'classes_len', okc, 'classes_len = u32_len(kind as transition count)' if okc else 'classes_len is not u32_len(kind)')
     u = cx.body('nfa::contiguous::u32_len')
     from acverif.rl import ieval
     bad = None
@@ -164,10 +217,6 @@ def r04_5_reader(cx):
     except KeyError as e:
         bad = 'unsupported construct %s' % e
     cx.report('R04.5', u, 'u32_len', bad is None, 'u32_len(n) = ceil(n / 4) for every n in 0..300 (decision table over the finite domain)' if bad is None else 'u32_len deviates from ceil(n/4) at %s' % bad)
-    kd = b.locals_named('kind')
-    d = b.def_term(kd[0]) if kd else None
-    okk = d is not None and d[0] == 'op' and d[1] == 'BitAnd' and d[3] == ('c', 255)
-    cx.report('R04.5', b, 'kind-byte', okk, 'kind = low byte of word 0' if okk else 'kind = %s' % (tstr(d, 80) if d else None))
 
 
 def r04_5_iter(cx):
